@@ -133,6 +133,7 @@ def check_property(prop, tier, base_seed, runs=None, workers=None, wall_cap=None
             exit_code = 2
     # 3. violations: minimise, write replay, confirm in a fresh process
     reported = []
+    unreproduced = False
     for v in total["violations"]:
         if any(r["signature"] == v["violation"]["signature"] for r in reported):
             continue
@@ -145,7 +146,7 @@ def check_property(prop, tier, base_seed, runs=None, workers=None, wall_cap=None
         ok, text = batch.replay_in_fresh_process(path)
         if not ok:
             print("HARNESS-ERROR violation did not reproduce in a fresh process: %s\n%s" % (path, text[-1500:]))
-            exit_code = 2
+            unreproduced = True
             continue
         print("violation: %s" % viol["message"])
         print("  signature=%s step=%s ops=%d (shrunk from %d with %d executions)" % (
@@ -153,6 +154,8 @@ def check_property(prop, tier, base_seed, runs=None, workers=None, wall_cap=None
         print("VIOLATION property=%s replay=%s" % (prop, path))
         reported.append({"signature": viol["signature"], "replay": path, "message": viol["message"]})
         exit_code = max(exit_code, 1) if exit_code != 2 else 2
+    if unreproduced and not reported:
+        exit_code = 2       # nothing that was seen could be confirmed: a harness problem, not a verdict
     for he in total["harness_errors"][:3]:
         print("HARNESS-ERROR seed=%s: %s" % (he.get("seed"), he["error"]))
         # a library that breaks the property often breaks the harness' own reads as well (a configuration that can no
